@@ -89,6 +89,24 @@ impl ThreadContext {
         }
     }
 
+    /// The transaction, if any, that holds `name` in the catalog's name index without this
+    /// transaction seeing it: the creator of the entry is still open or committed after this
+    /// transaction's snapshot was taken. The index holds one entry per name, so creating the name now
+    /// would replace that entry (and the holder's relation would no longer resolve).
+    pub(crate) fn name_holder(&self, name: &str) -> RuntimeResult<Option<TransactionId>> {
+        let Some(coordinator) = &self.coordinator else {
+            return Ok(None);
+        };
+        let creator = self
+            .catalog
+            .name_entry_creator(name, &self.tree_builder())?;
+        Ok(creator.filter(|&creator| {
+            creator != self.tid
+                && !self.snapshot.is_committed_before_snapshot(creator)
+                && coordinator.is_live_or_committed(creator)
+        }))
+    }
+
     /// A failed statement could not be taken back: the transaction must not commit what is left of it.
     pub(crate) fn abort_after_failed_undo(&self) {
         if let Some(coordinator) = &self.coordinator {
